@@ -192,11 +192,14 @@ fn apply_corruption(prep: &Prepared, corr: &Corr) -> (Vec<u8>, Option<Fired>) {
             let (off, len) = *regions[corr.field % regions.len()];
             let at = off + corr.at % len;
             let old = data[at];
-            data[at] = 0xff;
+            // 0xff is never valid UTF-8; the other replacements keep the text valid UTF-8 but (usually) break its
+            // syntax: an unterminated string, an unbalanced brace, a dangling attribute or escape.
+            let new_byte = [0xffu8, b'"', b'{', b'(', 0xff, b'@', b'\\', b'}'][(corr.bit % 8) as usize];
+            data[at] = new_byte;
             let fired = Fired {
                 kind: "body_garbage",
                 frame,
-                desc: format!("frame {frame}: body byte at {at} {:#04x} -> 0xff (body {off}..{})", old, off + len),
+                desc: format!("frame {frame}: body byte at {at} {:#04x} -> {:#04x} (body {off}..{})", old, new_byte, off + len),
                 bad_tag: false,
                 short: false,
                 clean_cut: false,
